@@ -152,6 +152,11 @@ def generate(tier, seed):
     for k in (1, 2):
         seqs = ["A" * 255, "A" * 256, "A" * 257, "C" + "A" * 256 + "F", "C" + "A" * 255 + "G" + "F", "A" * 254 + "C", "A" * 256]
         yield "engines", {"seqs": seqs, "k": k, "engines": ["nearest_neighbor", "kdtree"] + (["hash_based"] if k == 1 else []), "tag": "residue_count_256_cases"}, True
+    if thorough:
+        # sequences of 33-36 residues at max_edits = 2 (edit balls of about a million strings per query), neighbours one and two residues longer
+        b33 = "".join(rng.choice(G.AA) for _ in range(33))
+        yield "engines", {"seqs": [b33, b33 + "WY", b33[:10] + "K" + b33[10:], b33 + "A", b33[:-2], b33[:20] + "WW" + b33[20:]], "k": 2, "engines": ALL3,
+                          "tag": "long_queries_k2_cases"}, True
     # sizes just beyond a power of two
     for j, n in enumerate([9001] if not thorough else [8193, 9001, 16385, 17000, 32769]):
         yield "big", {"n": n, "k": 1, "np_seed": 4400 + seed + j}, True
